@@ -217,55 +217,7 @@ func runC01(w *World, r *Report) {
 			}
 		}
 	}
-	if f := w.fx(r, "accountant", "AccountingBook", "CreateLeaf"); f != nil {
-		for _, e := range f.calls(nAddEdge) {
-			_, a := callArgs(e)
-			x, ok := vertexOfHashArg(a[0])
-			if !ok {
-				r.undecided("confirm-only-validated", "CreateLeaf/AddEdge-src", lineOf(w, e), "source vertex must be identifiable", pathOf(a[0]))
-				continue
-			}
-			bad := ""
-			n := 0
-			for _, o := range originsLocal(x, 2) {
-				n++
-				ex, isEx := o.(*ssa.Extract)
-				if c, isNil := o.(*ssa.Const); isNil && c.Value == nil {
-					continue
-				}
-				if !isEx {
-					bad = "origin " + pathOf(o)
-					continue
-				}
-				c, isCall := ex.Tuple.(*ssa.Call)
-				if !isCall || calleeName(c) != cn("accountant", "*AccountingBook", "getValidLeaves") || ex.Index > 1 {
-					bad = "origin " + pathOf(o)
-				}
-			}
-			r.check(bad == "" && n > 0, "confirm-only-validated", "CreateLeaf/AddEdge-src", lineOf(w, e), "parents of a locally created vertex originate only from getValidLeaves", bad)
-		}
-	}
-	if f := w.fx(r, "accountant", "AccountingBook", "getValidLeaves"); f != nil {
-		fn := f.fn
-		for idx := 0; idx < 2; idx++ {
-			for _, ret := range returnsOf(fn) {
-				for _, pe := range phiEntries(ret.Results[idx]) {
-					if isNilConst(pe.val) {
-						continue
-					}
-					ve := validateCallsFor(fn, pe.val)
-					ok := false
-					if pe.edge != nil {
-						ok = crossesBeforeEdge(fn, *pe.edge, ve)
-					} else {
-						ok = behind(ret, ve)
-					}
-					r.check(ok, "confirm-only-validated", fmt.Sprintf("getValidLeaves/result#%d=%s", idx, describeVertexSource(pe.val)), lineOf(w, ret),
-						"a tip is handed out as a parent only behind validateLeaf(ctx, that tip) == nil", "value reaches the result without crossing the success edge of its validation")
-				}
-			}
-		}
-	}
+	createdVertexParentsValidated(w, r, "confirm-only-validated")
 
 	// ---- 2. a failing tip is dropped together with its index entry
 	r.rule("drop-with-index", "from the failure edge of validateLeaf(ctx, v) every path to an exit or to the next validation passes DeleteVertex(v.Hash) and removeTrxInVertex(v.Transaction.Hash)", 4)
@@ -283,31 +235,35 @@ func runC01(w *World, r *Report) {
 			v := pathOf(a[1])
 			for _, what := range []struct {
 				label string
-				stop  func(ssa.Instruction) bool
+				stop  func(ssa.Instruction, *frame) bool
 			}{
-				{"DeleteVertex", func(in ssa.Instruction) bool {
+				{"DeleteVertex", func(in ssa.Instruction, fr *frame) bool {
 					ci, ok := in.(ssa.CallInstruction)
 					if !ok || calleeName(ci) != nDeleteVertex {
 						return false
 					}
 					_, da := callArgs(ci)
 					x, ok := vertexOfHashArg(da[0])
-					return ok && pathOf(x) == v
+					return ok && fr.cx.res(x) == v
 				}},
-				{"removeTrxInVertex", func(in ssa.Instruction) bool {
+				{"removeTrxInVertex", func(in ssa.Instruction, fr *frame) bool {
 					ci, ok := in.(ssa.CallInstruction)
 					if !ok || calleeName(ci) != nRemoveTrx {
 						return false
 					}
 					_, ra := callArgs(ci)
-					return pathOf(ra[0]) == v+".Transaction.Hash"
+					return fr.cx.res(ra[0]) == v+".Transaction.Hash"
 				}},
 			} {
 				escapes := 0
 				for _, fe := range failErrNonNil(c) {
-					walkFrom(nil, fe.To(), nil, func(in ssa.Instruction) bool {
-						if what.stop(in) {
+					// helpers are followed (a roll-back helper called with the failing tip)
+					dw := newDeepWalk(func(in ssa.Instruction, fr *frame) bool {
+						if what.stop(in, fr) {
 							return true
+						}
+						if !fr.top() {
+							return false
 						}
 						if in == ssa.Instruction(c.(*ssa.Call)) {
 							escapes++ // next iteration reached
@@ -319,6 +275,7 @@ func runC01(w *World, r *Report) {
 						}
 						return false
 					})
+					dw.run(topFrame(c.Parent()), fe.To(), 0)
 				}
 				r.check(escapes == 0 && len(failErrNonNil(c)) > 0, "drop-with-index", name+"/"+what.label+"("+describeVertexSource(a[1])+")", lineOf(w, c),
 					"invalid tip is removed: "+what.label, fmt.Sprintf("%d paths leave the failure branch without it (failure edges: %d)", escapes, len(failErrNonNil(c))))
@@ -545,23 +502,7 @@ func runC01(w *World, r *Report) {
 			}
 		}
 	}
-	if f := w.fx(r, "accountant", "", "checkHasSufficientfunds"); f != nil {
-		ok := false
-		for _, c := range f.calls(nDrain) {
-			recv, a := callArgs(c)
-			if pathOf(recv) == f.fn.Params[0].Name() && pathOf(a[0]) == f.fn.Params[1].Name() {
-				rets := returnsOf(f.fn)
-				allBehind := true
-				for _, ret := range rets {
-					if successReturn(ret) && !behind(ret, passErrNil(c)) {
-						allBehind = false
-					}
-				}
-				ok = allBehind
-			}
-		}
-		r.check(ok, "funds-roles", "checkHasSufficientfunds/in.Drain(out)", w.Pos(f.fn.Pos()), "success only if in.Drain(*out, …) succeeded", "drain has other receiver/amount or its error does not gate success")
-	}
+	sufficiencyByDrain(w, r, "funds-roles")
 	pourFundsRoles(w, r, "funds-roles")
 	// errors of pourFunds / Supply in validateLeaf are not ignored
 	r.rule("validate-no-dropped-error", "inside validateLeaf no error of a funds-accounting step is dropped (a dropped error would turn 'cannot account' into 'valid')", 5)
@@ -721,6 +662,84 @@ func pourFundsRoles(w *World, r *Report, rule string) {
 				})
 			}
 			r.check(bad == 0 && (len(failErrNonNil(c)) > 0 || propagated), rule, "pourFunds/Supply-error-propagated", lineOf(w, c), "a failing Supply makes pourFunds fail", "success return reachable after a failed Supply")
+		}
+	}
+}
+
+// sufficiencyByDrain: the ledger's "can the inflow pay for the outflow" verdict is the verdict of the spice arithmetic
+// itself — checkHasSufficientfunds succeeds only behind the success of in.Drain(*out, …); no parallel comparison decides
+// (shared by C01 and C05: a predicate that re-implements the borrow test can disagree with Transfer by one unit).
+func sufficiencyByDrain(w *World, r *Report, rule string) {
+	if f := w.fx(r, "accountant", "", "checkHasSufficientfunds"); f != nil {
+		ok := false
+		for _, c := range f.calls(nDrain) {
+			recv, a := callArgs(c)
+			if pathOf(recv) == f.fn.Params[0].Name() && pathOf(a[0]) == f.fn.Params[1].Name() {
+				rets := returnsOf(f.fn)
+				allBehind := true
+				for _, ret := range rets {
+					if successReturn(ret) && !behind(ret, passErrNil(c)) {
+						allBehind = false
+					}
+				}
+				ok = allBehind
+			}
+		}
+		r.check(ok, rule, "checkHasSufficientfunds/in.Drain(out)", w.Pos(f.fn.Pos()), "success only if in.Drain(*out, …) succeeded", "drain has other receiver/amount or its error does not gate success")
+	}
+}
+
+// createdVertexParentsValidated: the parents CreateLeaf links a new vertex to originate only from getValidLeaves, and
+// getValidLeaves hands out a tip only behind the success edge of validateLeaf for that tip (shared by C01 and C09:
+// "a vertex created by a node references only tips that were valid at that moment").
+func createdVertexParentsValidated(w *World, r *Report, rule string) {
+	if f := w.fx(r, "accountant", "AccountingBook", "CreateLeaf"); f != nil {
+		for _, e := range f.calls(nAddEdge) {
+			_, a := callArgs(e)
+			x, ok := vertexOfHashArg(a[0])
+			if !ok {
+				r.undecided(rule, "CreateLeaf/AddEdge-src", lineOf(w, e), "source vertex must be identifiable", pathOf(a[0]))
+				continue
+			}
+			bad := ""
+			n := 0
+			for _, o := range originsLocal(x, 2) {
+				n++
+				ex, isEx := o.(*ssa.Extract)
+				if c, isNil := o.(*ssa.Const); isNil && c.Value == nil {
+					continue
+				}
+				if !isEx {
+					bad = "origin " + pathOf(o)
+					continue
+				}
+				c, isCall := ex.Tuple.(*ssa.Call)
+				if !isCall || calleeName(c) != cn("accountant", "*AccountingBook", "getValidLeaves") || ex.Index > 1 {
+					bad = "origin " + pathOf(o)
+				}
+			}
+			r.check(bad == "" && n > 0, rule, "CreateLeaf/AddEdge-src", lineOf(w, e), "parents of a locally created vertex originate only from getValidLeaves", bad)
+		}
+	}
+	if f := w.fx(r, "accountant", "AccountingBook", "getValidLeaves"); f != nil {
+		fn := f.fn
+		for idx := 0; idx < 2; idx++ {
+			for _, ret := range returnsOf(fn) {
+				for _, pe := range phiEntries(ret.Results[idx]) {
+					if isNilConst(pe.val) {
+						continue
+					}
+					ve := validateCallsFor(fn, pe.val)
+					ok := false
+					if pe.edge != nil {
+						ok = crossesBeforeEdge(fn, *pe.edge, ve)
+					} else {
+						ok = behind(ret, ve)
+					}
+					r.check(ok, rule, fmt.Sprintf("getValidLeaves/result#%d=%s", idx, describeVertexSource(pe.val)), lineOf(w, ret),
+						"a tip is handed out as a parent only behind validateLeaf(ctx, that tip) == nil", "value reaches the result without crossing the success edge of its validation")
+				}
+			}
 		}
 	}
 }
